@@ -38,7 +38,7 @@ EXPLANATION = (
     "kill fails the obligation)."
 )
 BOUNDS = [
-    "histories of 2 runs (quick) / 3 runs (thorough) over 3 row tokens; per run one of 6 (rows, batch_size) layouts; threshold in {0,1,2} against per-token confidence in {0,1,2}; statistics requested or not per run; at most one killed run, crash point k in 0..80 write() calls (covers absent/empty/every chunk prefix/complete)",
+    "histories of 2 runs (quick) / 3 runs (thorough) over 3 row tokens; per run one of 6 (rows, batch_size) layouts; threshold in {0,1,2} (concrete per partition: quick 3 threshold pairs, thorough all 9) against symbolic per-token confidence in {0,1,2}; statistics requested or not per run; at most one killed run, crash point k in 0..80 write() calls (covers absent/empty/every chunk prefix/complete)",
 ]
 STUBS = [
     "Balancer.__run_pipeline -> pure function of (row token, threshold): solved = confidence(token) >= threshold, stats = {reaction_cnt, confident_cnt}",
@@ -266,11 +266,17 @@ def plan(tier):
     P = []
     nl = len(LAYOUTS)
     # histories without a crash: layouts of the later runs, thresholds and confidences symbolic
+    # thresholds are concrete per partition: they are part of the cache key, and a symbolic number inside
+    # json.dumps/sha256 makes every path expensive
+    tpairs = [(a, b) for a in range(3) for b in range(3)] if tier == "thorough" else [(0, 0), (0, 1), (2, 1)]
     for l0 in range(nl):
-        for s0, s1 in ((True, True), (False, True), (True, False)):
-            if (s0, s1) != (True, True) and tier != "thorough" and l0 not in (0, 1):
+        for (ta, tb) in tpairs:
+            P.append(Part(H + "h_history", {"runs": 2, "fix": {"l0": l0, "kill_run": -1, "s0": True, "s1": True, "t0": ta, "t1": tb}},
+                          "history[2 runs|l0=%d,thr=%d/%d]" % (l0, ta, tb), group="history", timeout=1800, path_timeout=120))
+        for s0, s1 in ((False, True), (True, False)):
+            if tier != "thorough" and l0 not in (0, 1):
                 continue
-            P.append(Part(H + "h_history", {"runs": 2, "fix": {"l0": l0, "kill_run": -1, "s0": s0, "s1": s1}},
+            P.append(Part(H + "h_history", {"runs": 2, "fix": {"l0": l0, "kill_run": -1, "s0": s0, "s1": s1, "t0": 0, "t1": 0}},
                           "history[2 runs|l0=%d,stats=%s%s]" % (l0, "y" if s0 else "n", "y" if s1 else "n"), group="history", timeout=1800, path_timeout=120))
     # histories with a killed run: crash point symbolic (every write() of the entry), thresholds/confidences fixed
     calm = {"t0": 0, "t1": 0, "t2": 0, "ca": 1, "cb": 1, "cc": 1, "s0": True, "s1": True, "s2": True}
@@ -283,6 +289,7 @@ def plan(tier):
         for a in range(nl):
             for b in range(nl):
                 P.append(Part(H + "h_history", {"runs": 3, "fix": {"l0": a, "l1": b, "kill_run": -1, "s0": True, "s1": a % 2 == 0, "s2": True}}, "history[3 runs|l0=%d,l1=%d]" % (a, b), group="history", timeout=3000, path_timeout=200))
+                P[-1].params["fix"].update({"t0": 0, "t1": (a + b) % 3, "t2": 0})
                 P.append(Part(H + "h_history", {"runs": 3, "fix": dict(calm, l0=a, l1=b, l2=a, kill_run=1)}, "crash[run 2 of 3 killed|l0=%d,l1=%d,l2=%d]" % (a, b, a), group="crash", timeout=3000, path_timeout=200))
     for tw, kill in (("killed", 0), ("after-kill", 0), ("hit", -1)):
         P.append(Part(H + "h_history", {"runs": 2, "twin": tw, "fix": dict(calm, l0=0, l1=0, kill_run=kill)}, "history.twin[%s]" % tw, kind="twin", group="history", timeout=900))
